@@ -1,0 +1,47 @@
+//! Simulation seams used by the external verification harness.
+//!
+//! Only compiled with `--cfg paseto_verif`. The library keeps no behaviour of
+//! its own here: every function forwards to a hook table installed by the
+//! harness, and reports "not simulated" when no table is installed.
+
+extern crate std;
+
+use std::sync::OnceLock;
+
+/// Hook table installed by the simulator.
+pub struct Hooks {
+    /// Simulated wall clock: (seconds, nanoseconds) since the unix epoch.
+    pub now: fn() -> Option<(i64, i32)>,
+    /// Simulated system RNG. `None` means "not simulated, use the real source".
+    pub fill: fn(&mut [u8]) -> Option<Result<(), ()>>,
+    /// Buggify point for derived 16-byte AES-CTR counter blocks.
+    pub iv16: fn(&'static str, [u8; 16]) -> [u8; 16],
+    /// Simulated ECDSA nonce for the aws-lc backend.
+    pub ecdsa_k: fn() -> Option<[u8; 48]>,
+}
+
+static HOOKS: OnceLock<Hooks> = OnceLock::new();
+
+/// Install the hook table. Returns false if one was already installed.
+pub fn install(hooks: Hooks) -> bool {
+    HOOKS.set(hooks).is_ok()
+}
+
+pub fn now() -> Option<(i64, i32)> {
+    HOOKS.get().and_then(|h| (h.now)())
+}
+
+pub fn fill(dest: &mut [u8]) -> Option<Result<(), ()>> {
+    HOOKS.get().and_then(|h| (h.fill)(dest))
+}
+
+pub fn iv16(site: &'static str, iv: [u8; 16]) -> [u8; 16] {
+    match HOOKS.get() {
+        Some(h) => (h.iv16)(site, iv),
+        None => iv,
+    }
+}
+
+pub fn ecdsa_k() -> Option<[u8; 48]> {
+    HOOKS.get().and_then(|h| (h.ecdsa_k)())
+}
